@@ -427,6 +427,11 @@ func fallbackDeriveKey(passphrase []byte, keyLen int) []byte {
 	}
 
 	key := make([]byte, keyLen)
+	if len(passphrase) == 0 {
+		// nothing to stretch: an empty passphrase never matches a legacy file,
+		// decryption fails with the zero key instead of dividing by zero below
+		return key
+	}
 	copy(key, passphrase)
 	for i := len(passphrase); i < keyLen; i++ {
 		key[i] = passphrase[i%len(passphrase)] ^ byte(i)
